@@ -123,22 +123,39 @@ def rev_num(r):
     return int(r[1:]) if r.startswith(b"r") and r[1:].isdigit() else 98
 
 
+_TEMPLATES = {}
+
+
+def template(workdir, cs):
+    """The initial world (master with r1, the checkouts level with it), built once per process and copied per behaviour."""
+    from breezy import controldir
+    key = (os.getpid(), tuple(cs), workdir)
+    if key not in _TEMPLATES:
+        t = os.path.join(workdir, "template-%d" % os.getpid())
+        shutil.rmtree(t, ignore_errors=True)
+        os.makedirs(t)
+        fmt = controldir.format_registry.make_controldir("2a")
+        mt = controldir.ControlDir.create_standalone_workingtree(t + "/M", format=fmt)
+        Real.add_file(t + "/M", mt, 1, "M")
+        mt.commit("r1", rev_id=b"r1")
+        for c in cs:
+            mt.branch.create_checkout(t + "/" + c, lightweight=False)
+        _TEMPLATES[key] = t
+    return _TEMPLATES[key]
+
+
 class Real:
     def __init__(self, base, cs):
-        from breezy import controldir
         from breezy.branch import Branch
         self.base, self.cs = base, list(cs)
-        os.makedirs(base)
+        shutil.copytree(template(os.path.dirname(base), cs), base, symlinks=True)
         self.w = sched.World("file://" + base + "/", significant=significant)
-        fmt = controldir.format_registry.make_controldir("2a")
-        mt = controldir.ControlDir.create_standalone_workingtree(base + "/M", format=fmt)
-        self.add_file(base + "/M", mt, 1, "M")
-        mt.commit("r1", rev_id=b"r1")
+        for c in self.cs:           # bound to THIS world's master, through the fault-injecting transport
+            br = Branch.open(base + "/" + c)
+            with br.lock_write():
+                br.set_bound_location(self.w.url("M"))
         self.nrev = 1
         self.graph = [[]]
-        mx = Branch.open(self.w.url("M"))
-        for c in self.cs:
-            mx.create_checkout(base + "/" + c, lightweight=False)
         self.nproc = 0
 
     @staticmethod
@@ -149,27 +166,31 @@ class Real:
                 f.write("file of r%d made in %s\n" % (n, who))
             wt.add([name])
 
-    def observe(self, out=""):
+    def observe(self, out="", who=None):
         from breezy.branch import Branch
         from breezy.workingtree import WorkingTree
         o = {"tip": {}, "bound": {}, "basis": {}, "pend": {}, "out": out, "np": []}
+        opened = {}
         for b in ["M"] + self.cs:
-            br = Branch.open(self.base + "/" + b)
-            o["tip"][b] = rev_num(br.last_revision())
-            if b != "M":
-                o["bound"][b] = br.get_bound_location() is not None
-                ps = [rev_num(p) for p in WorkingTree.open(self.base + "/" + b).get_parent_ids()]
+            if b == "M":
+                br = Branch.open(self.base + "/M")
+            else:
+                wt = WorkingTree.open(self.base + "/" + b)
+                br = wt.branch
+                ps = [rev_num(p) for p in wt.get_parent_ids()]
                 o["basis"][b], o["pend"][b] = (ps[0] if ps else 0), ps[1:]
-        # did a revision come into existence?
-        nid = b"r%d" % (self.nrev + 1)
-        for b in ["M"] + self.cs:
-            repo = Branch.open(self.base + "/" + b).repository
+                o["bound"][b] = br.get_bound_location() is not None
+            o["tip"][b] = rev_num(br.last_revision())
+            opened[b] = br
+        # did a revision come into existence?  (only the acting branch's repository can have got one)
+        if who is not None:
+            nid = b"r%d" % (self.nrev + 1)
+            repo = opened[who].repository
             with repo.lock_read():
                 if repo.has_revision(nid):
                     o["np"] = [[rev_num(p) for p in repo.get_revision(nid).parent_ids]]
                     self.nrev += 1
                     self.graph.append(o["np"][0])
-                    break
         return o
 
     def run_gated(self, fn):
@@ -257,11 +278,11 @@ def execute(cs, acts, base):
             if a["op"] == "commit" and a.get("fault") and not a.get("plan"):
                 a["plan"] = ["phase", a["fault"], a.get("j", 1)]
             out, injected = rw.act(a)
-            obs.append(rw.observe(out))
+            obs.append(rw.observe(out, a["c"]))
             # the action as it really happened: the phase at which the fault struck (none if the plan never fired)
             done.append({"op": a["op"], "c": a["c"], "src": a.get("src", ""),
                          "fault": injected if (injected and out == "fault") else "",
-                         "note": "swallowed" if (injected and out == "ok") else ("" if injected or not a.get("plan") else "not-injected")})
+                         "note": "swallowed" if (injected and out == "ok") else ("not-injected" if (a.get("plan") and not injected and out == "ok") else "")})
             if done[-1]["note"] == "not-injected":
                 done[-1]["plan"], done[-1]["phase_ops"] = a["plan"], [o for o in Phase.ops if o[2] != "built"][-4:] + [len(Phase.ops), out]
             if out.startswith("error:"):
@@ -271,32 +292,54 @@ def execute(cs, acts, base):
         rw.close()
 
 
+
+class scratch:
+    """Directory for the real worlds: RAM-backed when the machine has /dev/shm (commits fsync), else the check's workdir."""
+
+    def __init__(self, sub):
+        self.sub = sub
+
+    def __enter__(self):
+        import tempfile
+        self.made = None
+        if os.path.isdir("/dev/shm") and os.access("/dev/shm", os.W_OK):
+            self.made = tempfile.mkdtemp(prefix="vf-C23-", dir="/dev/shm")
+            return self.made
+        return self.sub.workdir
+
+    def __exit__(self, *a):
+        if self.made:
+            shutil.rmtree(self.made, ignore_errors=True)
+
+
 def replay_paths(sub, chunk):
     install_phase_marker()
     rows = []
-    for idx, cs, acts in chunk:
-        done, obs, graph = execute(cs, acts, os.path.join(sub.workdir, "w%d" % idx))
-        rows.append({"c": {"cs": cs, "acts": done}, "impl": obs, "asked": acts})
-        sub.count(1)
+    with scratch(sub) as root:
+        for idx, cs, acts in chunk:
+            done, obs, graph = execute(cs, acts, os.path.join(root, "w%d" % idx))
+            rows.append({"c": {"cs": cs, "acts": done}, "impl": obs, "asked": acts})
+            sub.count(1)
     sub.cov.setdefault("_collect", []).extend(rows)
 
 
 def count_phase_ops(sub, chunk):
     """dry run: how many transport operations has the tip-update phase of the LAST action (a bound commit)?"""
     install_phase_marker()
-    for idx, cs, acts in chunk:
-        acts = [dict(a) for a in acts]
-        acts[-1]["plan"] = ["index", 10 ** 9]
-        rw = Real(os.path.join(sub.workdir, "d%d" % idx), cs)
-        try:
-            for a in acts:
-                out, _ = rw.act(a)
-                rw.observe()
-            if out != "ok":
-                sub.machinery("dry run of fault sweep %d ended with %s" % (idx, out))
-            sub.cov.setdefault("_collect", []).append({"idx": idx, "ops": list(Phase.ops)})
-        finally:
-            rw.close()
+    with scratch(sub) as root:
+        for idx, cs, acts in chunk:
+            acts = [dict(a) for a in acts]
+            acts[-1]["plan"] = ["index", 10 ** 9]
+            rw = Real(os.path.join(root, "d%d" % idx), cs)
+            try:
+                for a in acts:
+                    out, _ = rw.act(a)
+                    rw.observe(out, a["c"])
+                if out != "ok":
+                    sub.machinery("dry run of fault sweep %d ended with %s" % (idx, out))
+                sub.cov.setdefault("_collect", []).append({"idx": idx, "ops": list(Phase.ops)})
+            finally:
+                rw.close()
 
 
 # ----------------------------------------------------------------------------- spec -> actions
@@ -412,7 +455,7 @@ def run(ctx):
             jobs.append(acts)
     ctx.cov["graph"]["replayed_paths"] = len(jobs)
     # ---- E3: longer random behaviours of the model
-    behs, sres = tlc.simulate(ctx, "BoundBranchMC", cfg_text=cfg(6, cs, INV), num=40 if q else 500, depth=30,
+    behs, sres = tlc.simulate(ctx, "BoundBranchMC", cfg_text=cfg(6, cs, INV), num=40 if q else 300, depth=30,
                               seed=ctx.seed + 1, label="simulate 6 revisions")
     if sres.get("violated"):
         ctx.machinery("simulation of BoundBranchMC violates %s" % sres["violated"])
@@ -456,7 +499,7 @@ def run(ctx):
         steps += len(r["c"]["acts"])
         ctx.nontrivial(json.dumps(r["c"]["acts"]))
         if any(a.get("note") == "not-injected" for a in r["c"]["acts"]):
-            ctx.drift("a planned fault was never injected", {"asked": r["asked"], "done": r["c"]["acts"]})
+            ctx.drift("a planned fault was never injected although the commit went through its tip-update phase", {"asked": r["asked"], "done": r["c"]["acts"]})
         swallowed += sum(1 for a in r["c"]["acts"] if a.get("note") == "swallowed")
     ctx.cov["real_steps"] = steps
     ctx.cov["faults_swallowed_by_the_code"] = swallowed
